@@ -776,7 +776,15 @@ func Redetect(p *load.Program, r *report.Report, opt ResetOptions, R map[string]
 		zeroGuard, storedPS := false, false
 		for _, e := range ssau.DominatingEdges(ad.Block()) {
 			if b, ok := e.If.Cond.(*ssa.BinOp); ok {
+				isSize := false
 				if fi, isL := loadedField(b.X); isL && fi.Var == psVar {
+					isSize = true
+				}
+				// the size as it was handed in (the parameter that receives dmx.optPacketSize), tested before the struct is built
+				if prm, isP := b.X.(*ssa.Parameter); isP && len(call.Call.Args) >= 2 && len(npb.Params) >= 2 && prm == npb.Params[1] {
+					isSize = true
+				}
+				if isSize {
 					if k, isK := ssau.ConstInt(b.Y); isK && k == 0 && (b.Op.String() == "==" && e.Succ == 0 || b.Op.String() == "!=" && e.Succ == 1) {
 						zeroGuard = true
 					}
@@ -788,6 +796,20 @@ func Redetect(p *load.Program, r *report.Report, opt ResetOptions, R map[string]
 				if s, ok := ref.(*ssa.Store); ok && s.Val == v {
 					if fi, isF := fieldOf(s.Addr); isF && fi.Var == psVar {
 						storedPS = true
+					}
+				}
+			}
+			// or merged with the configured size before the struct is built (`packetBuffer{packetSize: packetSize}`)
+			for _, b := range npb.Blocks {
+				for _, in := range b.Instrs {
+					if s, ok := in.(*ssa.Store); ok {
+						if fi, isF := fieldOf(s.Addr); isF && fi.Var == psVar {
+							for _, l := range ssau.Leaves(s.Val) {
+								if l == v {
+									storedPS = true
+								}
+							}
+						}
 					}
 				}
 			}
